@@ -86,6 +86,10 @@ def query (t : Tables) (q : List String) : Option String :=
         opt (fun (p : Nat × Nat) => s!"{p.1}:{p.2}") (t.stts.getDecodeTime i) ++ ";" ++ opt toString (t.stts.getDur i) ++ ";" ++
         (match t.ctts with | none => "-" | some c => opt toString (c.getCto i)) ++ ";" ++ opt toString (t.stsz.getSampleSize i) ++ ";" ++
         opt (fun (p : Nat × Nat) => s!"{p.1}:{p.2}") (t.stsc.chunkNrFromSampleNr i)))
+  | ["sdi"] => some (join ((List.range' 1 t.offsets.length).map fun c => opt toString (t.stsc.getSampleDescriptionID c)))
+  | ["sdiseq", l] => do
+      let l ← natList l
+      some (join (l.map fun c => opt toString (t.stsc.getSampleDescriptionID c)))
   | ["sdata", a, b] => do
       let a ← a.toNat?
       let b ← b.toNat?
